@@ -551,8 +551,8 @@ example : toyEd.sigParse (sqrtF 13) (toyEd.sigBytes (0, 12) 3) = .ok (2, (0, 12)
 /-- ECDSA public keys, raw encoding `X ‖ Y` (secp256k1): round trip with `2·fpBytes` consumed bytes -/
 theorem C12_ecdsa_pk_roundtrip_raw (P : ECParams) (sm : Int → Alg.Pt Nat → Alg.Pt Nat) (x y : Nat) (rest : Bytes)
     (hk : P.maskKind = 0) (hx : x < P.p) (hy : y < P.p) (hp : P.p ≤ 256 ^ P.fpBytes)
-    (hsub : P.inSubgroup sm (ECParams.ofAffine x y) = true) :
-    P.pkParse sm (natToBE P.fpBytes x ++ natToBE P.fpBytes y ++ rest) = .ok (ECParams.ofAffine x y) ∧
+    (hsub : P.inSubgroup sm (ECParams.ofAffine x y) = true) (hne : ECParams.ofAffine x y ≠ none) :
+    P.pubParse sm (natToBE P.fpBytes x ++ natToBE P.fpBytes y ++ rest) = .ok (ECParams.ofAffine x y) ∧
       P.pkConsumed sm (natToBE P.fpBytes x ++ natToBE P.fpBytes y ++ rest) = .ok (2 * P.fpBytes) := by
   have hl : (natToBE P.fpBytes x ++ natToBE P.fpBytes y).length = 2 * P.fpBytes := by
     simp [natToBE_length]; omega
@@ -564,7 +564,23 @@ theorem C12_ecdsa_pk_roundtrip_raw (P : ECParams) (sm : Int → Alg.Pt Nat → A
       List.take_left' (natToBE_length _ _), List.drop_left' (natToBE_length _ _),
       beToNat_natToBE_of_lt _ _ (by omega), beToNat_natToBE_of_lt _ _ (by omega),
       if_neg (by omega), if_neg (by omega), if_pos hsub]
-  exact ⟨hmain, by unfold ECParams.pkConsumed; rw [hmain, hps]; rfl⟩
+  have hpub : P.pubParse sm (natToBE P.fpBytes x ++ natToBE P.fpBytes y ++ rest) = .ok (ECParams.ofAffine x y) := by
+    unfold ECParams.pubParse; rw [hmain]
+    cases h : ECParams.ofAffine x y with
+    | none => exact absurd h hne
+    | some q => rfl
+  exact ⟨hpub, by unfold ECParams.pkConsumed; rw [hpub, hps]; rfl⟩
+
+/-- `PublicKey.SetBytes` never returns the point at infinity: whatever the point decoder makes of the bytes, a decoded
+    infinity is refused (key validation; with Q = O every (r, s) with r = x([m/s]G) would verify) -/
+theorem C12_ecdsa_pk_never_infinity (P : ECParams) (sm : Int → Alg.Pt Nat → Alg.Pt Nat) (buf : Bytes) :
+    P.pubParse sm buf ≠ .ok none ∧ (P.pkParse sm buf = .ok none → P.pubParse sm buf = .error .pkInfinity) := by
+  unfold ECParams.pubParse
+  constructor
+  · cases h : P.pkParse sm buf with
+    | error e => simp
+    | ok Q => cases Q <;> simp
+  · intro h; rw [h]
 
 /-- what `recoverP` returns: abscissa `r + (v>>1 & 1)·n` reduced mod p (the overflow bit), ordinate the square root of the
     curve equation with the parity of `v & 1` -/
